@@ -2,9 +2,9 @@
    Theorems about the executable model coq/model/Mdl.v (tables regenerated from the source by tools/gen_mdl.py).
    PARTIAL by design: MRV (lxml), float formatting and the grep-based index are covered by the search only. *)
 From Coq Require Import ZArith List String Ascii Bool Lia.
-From Model Require Import PyBase Mdl Stereo.
+From Model Require Import PyBase Mdl Mrv Stereo.
 From Gen Require Import MdlTables.
-From Proofs Require Import MdlProofs MdlV2000 MdlV3000 MdlTail MdlFraming MdlFramingExt MdlMeta MdlFile MdlFileMol MdlFileMol3 StereoProofs.
+From Proofs Require Import MdlProofs MdlV2000 MdlV3000 MdlTail MdlFraming MdlFramingExt MdlMeta MdlFile MdlFileMol MdlFileMol3 MdlRxn MdlFileRxn MrvProofs StereoProofs.
 Import ListNotations.
 Open Scope Z_scope.
 Local Notation length := List.length.
@@ -227,6 +227,48 @@ Theorem C11_rdf_framing_example :
 Proof. exact rdf_framing_example. Qed.
 Print Assumptions C11_rdf_framing_example.
 
+(* ---- reaction blocks (RXN V2000 / V3000, as RDFWrite / ERDFWrite emit them after the "$RFMT" line): counts line, $MOL blocks
+        resp. REACTANT / PRODUCT / AGENT sections, roles incl. reagents; `tail` = whatever follows in the record (the metadata lines:
+        RDFRead hands the whole record to the parser).  Molecules under the block hypotheses (wf_wmol2 / wf_wmol3 bundle them);
+        V2000: at most 999 molecules per role (3-column counts); at least one molecule ---- *)
+Theorem C11_rxn_v2000_fields_roundtrip : forall mapping r fr fp fg,
+  Forall2 wf_wmol2 (wr_reactants r) fr -> Forall2 wf_wmol2 (wr_products r) fp -> Forall2 wf_wmol2 (wr_reagents r) fg ->
+  (length (wr_reactants r) <= 999)%nat -> (length (wr_products r) <= 999)%nat -> (length (wr_reagents r) <= 999)%nat ->
+  rxn_mols r <> [] ->
+  exists lines, rxn_lines_v2000 mapping r = Ok lines /\
+    forall tail, parse_rxn_v2000 (map add_nl lines ++ tail) =
+      Ok (mk_rparsed (map2 (expected_mol2 mapping) (wr_reactants r) fr)
+                     (map2 (expected_mol2 mapping) (wr_products r) fp)
+                     (map2 (expected_mol2 mapping) (wr_reagents r) fg)
+                     (title_of (wr_name r)) 0).
+Proof. exact rxn_v2000_fields_roundtrip. Qed.
+Print Assumptions C11_rxn_v2000_fields_roundtrip.
+Theorem C11_rxn_v3000_fields_roundtrip : forall mapping r fr fp fg,
+  Forall2 wf_wmol3 (wr_reactants r) fr -> Forall2 wf_wmol3 (wr_products r) fp -> Forall2 wf_wmol3 (wr_reagents r) fg ->
+  rxn_mols r <> [] ->
+  exists lines, rxn_lines_v3000 mapping r = Ok lines /\
+    forall tail, parse_rxn_v3000 (map add_nl lines ++ tail) =
+      Ok (mk_rparsed (map2 (expected_ctab3 mapping) (wr_reactants r) fr) (map2 (expected_ctab3 mapping) (wr_products r) fp)
+                     (map2 (expected_ctab3 mapping) (wr_reagents r) fg) (title_of (wr_name r)) 0).
+Proof. exact rxn_v3000_fields_roundtrip. Qed.
+Print Assumptions C11_rxn_v3000_fields_roundtrip.
+(* the lines are what the writers emit: text = "$RFMT\n" + lines + metadata *)
+Theorem C11_rdf_rxn_text_lines : forall mapping r meta lines, rxn_lines_v2000 mapping r = Ok lines ->
+  rdf_rxn_text mapping r meta = Ok (L "$RFMT" ++ [nl] ++ text_of_lines lines ++ rdf_meta_text meta).
+Proof. exact rdf_rxn_text_lines. Qed.
+Print Assumptions C11_rdf_rxn_text_lines.
+Theorem C11_erdf_rxn_text_lines : forall mapping r meta lines, rxn_lines_v3000 mapping r = Ok lines ->
+  erdf_rxn_text mapping r meta = Ok (L "$RFMT" ++ [nl] ++ text_of_lines lines ++ rdf_meta_text meta).
+Proof. exact erdf_rxn_text_lines. Qed.
+Print Assumptions C11_erdf_rxn_text_lines.
+(* non-vacuity: 2 reactants, 1 product, 1 reagent (the reagent is NAMED "$MOL" resp. "M  V30 BEGIN CTAB", and the tail contains such
+   lines too), both versions, through the theorems *)
+Theorem C11_rxn_examples :
+  (exists lines, rxn_lines_v2000 true ex_rxn2 = Ok lines /\ parse_rxn_v2000 (map add_nl lines ++ ex_tail) = Ok ex_rparsed2) /\
+  (exists lines, rxn_lines_v3000 true ex_rxn3 = Ok lines /\ parse_rxn_v3000 (map add_nl lines ++ ex_tail) = Ok ex_rparsed3).
+Proof. exact (conj ex_rxn2_roundtrip ex_rxn3_roundtrip). Qed.
+Print Assumptions C11_rxn_examples.
+
 (* ---- whole files.  The block theorems also hold with ANY further lines after the written block (the parsers stop at "M  END" /
         "END CTAB"): this is what the RDF reader and the RXN parsers rely on ---- *)
 Theorem C11_v2000_fields_roundtrip_tail : forall mapping g fs,
@@ -303,6 +345,18 @@ Theorem C11_erdf_mol_file_roundtrip : forall (A : Type) (build : parsed3 -> pyre
 Proof. exact erdf_v3000_mol_file_roundtrip. Qed.
 Print Assumptions C11_erdf_mol_file_roundtrip.
 
+(* rdf_file_roundtrip, REACTION records (V2000): molecules under the block hypotheses with titles / coordinate fields single lines
+   and titles not looking like structural lines (wmol_ok2); reaction title a single line not starting with $RFMT/$MFMT/$DTYPE;
+   <= 999 molecules per role, at least one; dictionary under the format-inherent conditions; the record fits the buffer *)
+Theorem C11_rdf_rxn_file_roundtrip : forall (A : Type) (build : parsed3 -> pyres A) (build_rxn : rparsed -> pyres A) buffer_size mapping header (recs : list rxn_in),
+  Forall (fun l => ~ In nl l /\ is_fmt l = false /\ startswith (L "$RXN") l = false) header ->
+  Forall (rdf_rxn_wf buffer_size (length header) mapping) recs ->
+  exists texts, mapM (fun x => rdf_rxn_text mapping (ri_rxn x) (meta_of (ri_entries x))) recs = Ok texts /\
+    rdf_read A build build_rxn buffer_size (readlines (text_of_lines header ++ concat texts)) =
+    collect A (map (fun x => match build_rxn (rxn_expected2 mapping x) with Ok o => inl (o, meta_spec (ri_entries x)) | Err e => inr (Py e) end) recs).
+Proof. exact rdf_v2000_rxn_file_roundtrip. Qed.
+Print Assumptions C11_rdf_rxn_file_roundtrip.
+
 (* non-vacuity: the hypotheses hold for a two-record file (charge +4, isotope, radical, wedge, order-8 bond, renumbered atoms;
    an escaped key, a two-line value), and the file reads back *)
 Theorem C11_file_roundtrip_example :
@@ -351,6 +405,48 @@ Theorem C11_sdf_meta_example :
   [(L "a>b", L "v1" ++ [nl] ++ L "v2" ++ [nl] ++ L "v3"); (L "c", L "w")].
 Proof. exact sdf_meta_example. Qed.
 Print Assumptions C11_sdf_meta_example.
+
+(* ---- MRV, below lxml: the attribute-level writer/reader pair (model coq/model/Mrv.v).  The writer side is the text MRVWrite emits
+        (<atomArray>..</bondArray>, rendered from attribute lists); `mrv_dict` is what an XML parser + xml_dict find in that text
+        (a start-tag scanner: this is where the value `1" queryType="Any` written for order 8 becomes two attributes); parse_molecule
+        is the reader.  For every molecule with distinct atom numbers, bonds / wedges between its atoms, orders from the generated
+        bond_map (1, 2, 3, 4, 8), attribute values non-blank without double quote: atoms in order with element, isotope, charge,
+        radical, mapping number, hydrogenCount, x2/2 and y2/2, bonds wedge-first, W/H stereo, title, empty log ---- *)
+Theorem C11_mrv_molecule_roundtrip : forall mapping g fs hs,
+  Forall2 wfm_atom (wm_atoms g) fs -> wm_atoms g <> [] -> NoDup (map wa_num (wm_atoms g)) ->
+  Forall (mbond_ok (wm_atoms g)) (wm_bonds g) -> Forall (wedge_ok (wm_atoms g) (wm_bonds g)) (wm_wedge g) ->
+  no_char dq (wm_name g) ->
+  exists w d,
+    write_mrv mapping g hs = Ok w /\ mrv_dict (wm_name g) w = Ok d /\
+    parse_molecule d =
+    Ok (mk_mparsed (title_of (wm_name g)) (exp_atoms mapping (wm_atoms g) fs hs)
+                   (map (exp_wedge_bond (wm_atoms g) (wm_bonds g)) (wm_wedge g) ++ map (exp_plain_bond (wm_atoms g)) (plain_bonds g))
+                   (map (exp_wedge_stereo (wm_atoms g)) (wm_wedge g)) [] (id_map (map wa_num (wm_atoms g)) 0)).
+Proof. exact mrv_molecule_roundtrip. Qed.
+Print Assumptions C11_mrv_molecule_roundtrip.
+
+Theorem C11_mrv_atom_roundtrip : forall mapping a h f, wfm_atom a f ->
+  exists d, xml_elem_attrs (mrv_atom_raw mapping a h) = Ok d /\ mrv_parse_atom d = Ok (aid (wa_num a), exp_matom mapping a f h).
+Proof. exact mrv_atom_roundtrip. Qed.
+Print Assumptions C11_mrv_atom_roundtrip.
+
+(* bond orders through the generated bond_map, incl. the injected queryType="Any" of order 8 *)
+Theorem C11_mrv_order_roundtrip : forall o, valid_order o ->
+  exists ov r, w_order o = Ok ov /\ cook [(L "order", ov)] = Some r /\ read_order (xml_attrs r) = Ok o.
+Proof. exact order_roundtrip. Qed.
+Print Assumptions C11_mrv_order_roundtrip.
+Theorem C11_mrv_valid_orders : forall o, valid_order o <-> o = 1 \/ o = 2 \/ o = 3 \/ o = 4 \/ o = 8.
+Proof. exact valid_order_cases. Qed.
+Print Assumptions C11_mrv_valid_orders.
+
+(* non-vacuity: charges +4/-1/-2, isotopes, radicals, hydrogen counts, two wedges, order 4 and 8 bonds, numbers 7 3 12 5 *)
+Theorem C11_mrv_example :
+  (Forall2 wfm_atom (wm_atoms exm_mol) exm_fs /\ wm_atoms exm_mol <> [] /\ NoDup (map wa_num (wm_atoms exm_mol)) /\
+   Forall (mbond_ok (wm_atoms exm_mol)) (wm_bonds exm_mol) /\ Forall (wedge_ok (wm_atoms exm_mol) (wm_bonds exm_mol)) (wm_wedge exm_mol) /\
+   no_char dq (wm_name exm_mol)) /\
+  mrv_write_read true exm_mol exm_hs = Ok exm_parsed.
+Proof. exact (conj exm_hypotheses exm_roundtrip). Qed.
+Print Assumptions C11_mrv_example.
 
 (* ---- the geometric sign functions behind wedge reading / writing (model and lemmas shared with C12) ---- *)
 Theorem C11_pyramid_sign_antisym : forall n u v w,
